@@ -221,8 +221,12 @@ def generate(seed, tier):
             sps = rng.choice([2, 4, 8, 16])
             if rng.random() < 0.06:
                 nsl, sps = rng.choice([(2047, 16), (2047, 8), (8191, 4), (1023, 32)])      # long patterns
+            prev_sync = [o for o in ops if o.get("op") == "sync"]
+            reuse = rng.random() < 0.5
+            if reuse and prev_sync and rng.random() < 0.7:
+                nsl, sps = prev_sync[-1]["nslots"], prev_sync[-1]["sps"]     # the same pattern buffer refilled
             L = nsl * sps
-            ops.append({"op": "sync", "nslots": nsl, "sps": sps, "pseed": rng.getrandbits(32),
+            ops.append({"op": "sync", "nslots": nsl, "sps": sps, "pseed": rng.getrandbits(32), "reuse": reuse,
                         "d": rng.choice([0, 1, sps - 1, sps, L - 1, L // 2, rng.randrange(L), rng.randrange(L),
                                          L - 1 - rng.randrange(max(1, L // 8))]),
                         "sigma": rng.choice([0.0, 0.01, 0.05, 0.1]), "nseed": rng.getrandbits(32),
@@ -291,6 +295,7 @@ class Bench:
         self.lab, self.BS, self.ES, self.gv = lab, binary_sequence, electrical_signal, gv
         self.rec = rec
         self.clock = seams.install_clock(0)
+        self.tx_bufs = {}
         self.inst = fakevisa.SimInstrument()
         self.sessions = fakevisa.install(self.inst, self.clock, rec)
         self.ppg = None
@@ -708,6 +713,15 @@ class Bench:
         if op["sigma"]:
             rx = rx + np.random.RandomState(op["nseed"]).normal(0, op["sigma"] * op["amp"], rx.size)
         tx = self.BS(bits) if op["tx"] == "bs" else bits.copy()
+        if op.get("reuse"):
+            # the caller keeps one pattern container per length and refills it in place between alignments
+            key = (nsl, op["tx"])
+            if key in self.tx_bufs:
+                tx = self.tx_bufs[key]
+                (tx.data if op["tx"] == "bs" else tx)[:] = bits
+                self.rec.fault("container_refilled")
+            else:
+                self.tx_bufs[key] = tx
         common.apply_gv({"sps": sps, "R": 1e9})
         what = f"SYNC(nslots={nsl}, sps={sps}, d={d}, sigma={op['sigma']}, {op['prefix']}, {op['form']})"
         results = []
